@@ -364,7 +364,7 @@ fn vp_read_manifest(root: &Path, Tracked(fs): Tracked<&mut VpFs>) -> (r: Option<
 /// O14: `toml::to_string(&manifest)`. ASSUMED (listed): what serde/toml write, serde/toml read back: parse(serialize(m)) == m.
 #[verifier::external_body]
 fn vp_toml_to_string(m: &Manifest) -> (r: Result<String, VpErr>)
-    ensures r is Ok ==> toml_parse(r.unwrap()@) == Some(mv(*m)),
+    ensures r matches Ok(t) ==> toml_parse(t@) == Some(mv(*m)),
 { unimplemented!() }
 
 /// O14: `veryl_path::atomic_write(root.join(MANIFEST), text.as_bytes())`: temp file + rename, so either the file holds the
